@@ -40,7 +40,13 @@ Step(e) ==
          /\ IF e.scope = "user" THEN maybeU' = maybeU \cup {e.w} /\ UNCHANGED maybeF
             ELSE maybeF' = [maybeF EXCEPT ![e.doc] = @ \cup {e.w}] /\ UNCHANGED maybeU
          /\ crashedAt' = e.at /\ UNCHANGED <<user, file, baseline>>
-    [] e.ev \in {"Restart", "Deep"} -> Unch
+    [] e.ev = "Restart" -> Unch
+    \* FileDictName.tla: Fits and Distinct for the two documents of a long-path session
+    [] e.ev = "Deep" ->
+         /\ Unch
+         /\ IF e.name_bytes > 255 THEN PrintT(<<"REJECT", l, "file-dictionary-name-longer-than-a-file-name", "">>)
+            ELSE IF e.same_name THEN PrintT(<<"REJECT", l, "two-documents-share-a-file-dictionary-name", "">>)
+            ELSE TRUE
     [] e.ev = "Reloaded" ->
          /\ Unch
          /\ LET want == IF e.scope = "user" THEN user ELSE file[e.doc]
